@@ -63,8 +63,10 @@ func genC11(r *vh.Rand) c11Spec {
 		case x < 4:
 			op.Kind, op.Sess = "init-bad", -2
 			nsess++ // occupies an index: its id is stale from birth
-		case x < 8:
+		case x < 7:
 			op.Kind = "post"
+		case x < 8:
+			op.Kind = "post-late"
 		case x < 10:
 			op.Kind, op.Ms, op.Bg = "post-slow", []int{T / 2, T + 50, 2*T + 10}[r.Intn(3)], r.Bool()
 		case x < 11:
@@ -127,6 +129,21 @@ func runC11(c *vh.Case, spec c11Spec) {
 		json.Unmarshal(req.Params.Arguments, &a)
 		handlerRuns.Store(a.Nonce, true)
 		time.Sleep(ms(a.Ms))
+		return &mcp.CallToolResult{Content: []mcp.Content{&mcp.TextContent{Text: "ok"}}}, nil
+	})
+	var lateWG sync.WaitGroup
+	server.AddTool(&mcp.Tool{Name: "late", InputSchema: json.RawMessage(`{"type":"object"}`)}, func(ctx context.Context, req *mcp.CallToolRequest) (*mcp.CallToolResult, error) {
+		var a struct{ Nonce int }
+		json.Unmarshal(req.Params.Arguments, &a)
+		handlerRuns.Store(a.Nonce, true)
+		// background work that outlives the call and still reports on its (by then answered) request
+		bctx := context.WithoutCancel(ctx)
+		lateWG.Add(1)
+		go func() {
+			defer lateWG.Done()
+			time.Sleep(time.Millisecond)
+			req.Session.NotifyProgress(bctx, &mcp.ProgressNotificationParams{ProgressToken: "late", Progress: 1, Message: "after the answer"})
+		}()
 		return &mcp.CallToolResult{Content: []mcp.Content{&mcp.TextContent{Text: "ok"}}}, nil
 	})
 	ho := &mcp.StreamableHTTPOptions{Stateless: spec.Stateless, SessionTimeout: T}
@@ -214,7 +231,7 @@ func runC11(c *vh.Case, spec c11Spec) {
 		if spec.Stateless {
 			// stateless endpoint: no ids issued or honoured; GET and DELETE are 405
 			switch op.Kind {
-			case "init", "init-bad", "post", "post-slow", "notify", "post-nosid":
+			case "init", "init-bad", "post", "post-slow", "post-late", "notify", "post-nosid":
 				body := `{"jsonrpc":"2.0","id":1,"method":"tools/list"}`
 				if op.Kind == "init" {
 					body = `{"jsonrpc":"2.0","id":1,"method":"initialize","params":{"protocolVersion":"2025-06-18","capabilities":{},"clientInfo":{"name":"x","version":"1"}}}`
@@ -297,7 +314,7 @@ func runC11(c *vh.Case, spec c11Spec) {
 			if got := len(serverSessions()); got != before && !anyNear(models, nearDeadline) {
 				bad("session-leaked", "op %d: a non-initialize POST without session id left %d extra server session(s) behind", i, got-before)
 			}
-		case "post", "notify", "post-slow":
+		case "post", "notify", "post-slow", "post-late":
 			nonce++
 			n := nonce
 			body := fmt.Sprintf(`{"jsonrpc":"2.0","id":%d,"method":"tools/list"}`, 100+n)
@@ -309,6 +326,9 @@ func runC11(c *vh.Case, spec c11Spec) {
 				dur = op.Ms
 				body = fmt.Sprintf(`{"jsonrpc":"2.0","id":%d,"method":"tools/call","params":{"name":"sleep","arguments":{"ms":%d,"nonce":%d}}}`, 100+n, dur, n)
 			}
+			if op.Kind == "post-late" {
+				body = fmt.Sprintf(`{"jsonrpc":"2.0","id":%d,"method":"tools/call","params":{"name":"late","arguments":{"nonce":%d}}}`, 100+n, n)
+			}
 			cl := class()
 			if m != nil && m.alive && nearDeadline(m) {
 				break // the exact deadline instant is not decided: do not touch the session there
@@ -319,7 +339,10 @@ func runC11(c *vh.Case, spec c11Spec) {
 					m.inflight++
 					mmu.Unlock()
 				}
-				st, _, _, _ := ip.Do(ctx, "POST", "http://example.test/mcp", hdrFor(op.User, sid), []byte(body))
+				st, _, rbody, _ := ip.Do(ctx, "POST", "http://example.test/mcp", hdrFor(op.User, sid), []byte(body))
+				if op.Kind == "post-late" {
+					time.Sleep(2 * time.Millisecond) // let the late notification happen before the next operation
+				}
 				mmu.Lock()
 				defer mmu.Unlock()
 				switch cl {
@@ -329,8 +352,8 @@ func runC11(c *vh.Case, spec c11Spec) {
 					if m.alive { // it may have been closed meanwhile (DELETE / server close)
 						if op.Kind == "notify" {
 							expectStatus(i, op, st, 202)
-						} else {
-							expectStatus(i, op, st, 200)
+						} else if expectStatus(i, op, st, 200) && !strings.Contains(string(rbody), fmt.Sprintf(`"id":%d`, 100+n)) {
+							bad("live-session-gave-no-response", "op %d %+v at %v: HTTP 200 but the body carries no response to request %d: %q", i, op, now(), 100+n, trunc80(string(rbody)))
 						}
 					}
 				case "dead":
@@ -454,6 +477,7 @@ func runC11(c *vh.Case, spec c11Spec) {
 	}
 	// let background POSTs finish, then everything idles out
 	bg.Wait()
+	lateWG.Wait()
 	time.Sleep(4*T + time.Second)
 	synctestWait()
 	if n := len(serverSessions()); n != 0 && !c.Violated() {
